@@ -294,6 +294,29 @@ theorem tick_ok {st : St} (h : WF st) : StepOK st (tick st).1 (tick st).2 := by
     -- rotating the ring touches neither `reqs` nor `nextSerial`
     exact ⟨h, fun s hs => ⟨hs, by simp⟩, by simp, by simp⟩
 
+theorem sockEvent_cases (st : St) (a : KAns) :
+    sockEvent st a = (st, []) ∨ ∃ d, sockEvent st a = onRecv st d := by
+  cases a with
+  | err e => exact Or.inl rfl
+  | data d =>
+    by_cases h : d.isEmpty = true
+    · left; simp [sockEvent, h]
+    · right; exact ⟨d.take 4096, by simp [sockEvent, h]⟩
+
+theorem sockEvent_ok {st : St} (a : KAns) (h : WF st) : StepOK st (sockEvent st a).1 (sockEvent st a).2 := by
+  rcases sockEvent_cases st a with e | ⟨d, e⟩
+  · rw [e]; exact StepOK.refl h
+  · rw [e]; exact onRecv_ok _ h
+
+theorem sockRun_ok : ∀ (as : List KAns) {st : St}, WF st → StepOK st (sockRun st as).1 (sockRun st as).2 := by
+  intro as
+  induction as with
+  | nil => intro st h; exact StepOK.refl h
+  | cons a as ih =>
+    intro st h
+    have h1 := sockEvent_ok a h
+    exact h1.trans (ih h1.1)
+
 theorem step_ok {st : St} (op : Op) (h : WF st) : StepOK st (step st op).1 (step st op).2.events := by
   cases op with
   | servers n => exact ⟨h, fun s hs => ⟨hs, by simp [step]⟩, by simp [step], by simp [step]⟩
@@ -304,6 +327,9 @@ theorem step_ok {st : St} (op : Op) (h : WF st) : StepOK st (step st op).1 (step
   | recv d => exact onRecv_ok d h
   | net d => exact onRecv_ok (d.take 4096) h
   | tick => exact tick_ok h
+  | lookupN name sid send => exact (lookup_ok sid h).1
+  | sock as => exact sockRun_ok as h
+  | recvAt k d => exact onRecv_ok d h
 
 /-- all callbacks of a run, in order -/
 def allEvents (outs : List Out) : List Event := outs.flatMap (·.events)
